@@ -18,8 +18,8 @@ BINS = [b for b in ["h_justice", "h_filterblock"] if os.path.exists(os.path.join
 LEVEL = "proof"
 MANIFEST = {
     "category": "proof",
-    "text": "Coq theorems over a transliterated model of the ChannelMonitor's counterparty-commitment memory: for every hash function, seed, assignment of commitments (any HTLC sets, dust or not, both directions) and any number n <= 2^48 of update rounds, the monitor still derives the revocation secret of EVERY revoked commitment and still holds its HTLC list with output indices (only sources pruned); the claim set computed when such a transaction confirms is exactly its revokeable outputs plus every HTLC output, without duplicates; for every subset of outputs spent first by the cheater's HTLC transactions the tracked claims are (claims minus subset) plus the second-stage outputs. Runtime validation on real nodes (not proof): every cheater-paying output of the confirmed revoked commitment and every second-stage output is spent by the victim's consensus-verified transactions, re-broadcast feerates do not decrease, balances drain to empty with SpendableOutputs for everything recovered, value is conserved; compared with the model's claim set.",
-    "note": "Partial: script/consensus validity, signatures, weights, fee adequacy, package aggregation/splitting and bump timers of OnchainTxHandler are validated at run time on the real implementation, not proved. Trusted: Coq kernel, the hand transliteration Model/Justice.v (+ Model/Shachain.v), LDK functional_test_utils, bitcoinconsensus.",
+    "text": "Coq theorems over a transliterated model of the ChannelMonitor's counterparty-commitment memory: for every hash function, seed, assignment of commitments (any HTLC sets, dust or not, both directions) and any number n <= 2^48 of update rounds, the monitor still derives the revocation secret of EVERY revoked commitment and still holds its HTLC list with output indices (only sources pruned); the claim set computed when such a transaction confirms is exactly its revokeable outputs plus every HTLC output, without duplicates; the block filter keeps a transaction as soon as ANY of its inputs spends a watched outpoint or an output of a transaction kept earlier in the block; for every list of cheater second-stage transactions (any number of inputs, HTLC inputs at any position) delivered later OR in the commitment's own block in any order, the tracked claims are the claims not spent by them plus every second-stage output; over the feerate_bump regenerated from package.rs, a forced or scheduled bump pays at least the capped fresh estimate whenever that exceeds the previous feerate and never lowers the fee, and a claim is re-issued within every LOW_FREQUENCY_BUMP_INTERVAL blocks under any estimate trajectory while bumps stay affordable. Runtime validation on real nodes (not proof): every cheater-paying output of the confirmed revoked commitment and every second-stage output is spent by the victim's consensus-verified transactions, re-broadcast feerates do not decrease and follow min(fresh estimate, affordable) on scripted estimator trajectories, the monitor's filter_block agrees with the model on generated blocks, balances drain to empty with SpendableOutputs for everything recovered, value is conserved; compared with the model's claim set.",
+    "note": "Partial: script/consensus validity, signatures, weights, package aggregation/splitting and the fee estimator are validated at run time on the real implementation, not proved; fee adequacy is proved relative to the estimate handed to the regenerated feerate_bump. Trusted: Coq kernel, the hand transliteration Model/Justice.v (+ Model/Shachain.v), the rs2v translation Gen/Package.v, LDK functional_test_utils, bitcoinconsensus.",
     "technique": "machine-checked proof in Coq (history induction + the C05 shachain refinement) + end-to-end runtime validation of the implementation's justice transactions against the model's claim set",
 }
 
@@ -35,6 +35,16 @@ Definition seed0 : list Z := repeat 7 32.
 (* The claim-set correspondence does not depend on the hash function (the theorems hold for every H;
    the SHA-256 instance of the secret store is exercised by C05): a cheap H keeps this evaluation fast. *)
 Definition Hc (b : list Z) : list Z := map (fun x => (x * 7 + 3) mod 256) b.
+Definition run_case2 (cs : list ccommit) (n : nat) (k ctxid : Z) (funding : Z * Z) (tx : ctx) (C : stx)
+    (same later : list stx) : option (list (Z * Z) * list (Z * Z)) :=
+  let commit := fun j : nat => nth j cs (mkCC 0 0 []) in
+  match apply_all Hc mon_init (history Hc seed0 commit n) with
+  | Some m =>
+      let j := justice Hc m tx in
+      let '(_, cl) := process_block Hc m [funding] funding tx false [] (C :: same) in
+      Some (j, fold_left (track Hc m k ctxid) later cl)
+  | None => None
+  end.
 Definition run_case (cs : list ccommit) (n : nat) (k ctxid : Z) (tx : ctx) (S : list (Z * Z)) : option (list (Z * Z) * list (Z * Z)) :=
   let commit := fun j : nat => nth j cs (mkCC 0 0 []) in
   match apply_all Hc mon_init (history Hc seed0 commit n) with
@@ -165,6 +175,9 @@ class Intern:
         return self.m[txid]
 
 
+KNOWN_BURN = "F1-forcebump-25pct-per-block-burns-claim-value"
+
+
 def analyse(rec):
     """Judge of C06 on the implementation's outputs for one scenario + the data for the model comparison.
     Returns (fails, model_case | None, stats)."""
@@ -174,12 +187,15 @@ def analyse(rec):
     cap = rec["captures"][cheat["capture"]]
     ctx_tx = cap["commitment"]
     ctxid = cheat["txid"]
+    legacy = rec.get("chan_type", "legacy") == "legacy"
     mon = [m for m in rec["mon_commitments"] if m["txid"] == ctxid]
     if not mon:
         return [{"why": "the victim's monitor was never told about the cheated commitment %s" % ctxid}], None, stats
     mon = mon[0]
     a_htlc = {t["txid"]: t for t in cap.get("htlc_txs", [])}
-    # all of B's broadcasts, by txid (last copy wins; inputs are what matter)
+    for t in rec.get("S_txs", []) or []:
+        a_htlc[t["txid"]] = t
+    # all of B's broadcasts, by txid
     btx = {}
     bcast_seq = []
     for b in rec["blocks"]:
@@ -199,46 +215,79 @@ def analyse(rec):
                 continue
             for i in t["inputs"]:
                 spent_by[i["prev"]] = txid
-    # cheater-paying outputs: every P2WSH output of the revoked (non-anchor) commitment
     outs = ctx_tx["outputs"]
-    o_impl = sorted(v for v, o in enumerate(outs) if o["script"].startswith("0020") and len(o["script"]) == 68)
+    # cheater-paying outputs: the revokeable output and every HTLC output (what the monitor was told, which must
+    # describe the transaction); everything else must be an anchor / P2A output or the victim's own output
     o_mon = sorted(([mon["revokeable_vout"]] if mon.get("revokeable_vout") is not None else []) + [h["vout"] for h in mon["htlcs"] if h.get("vout") is not None])
+    kinds = {o["vout"]: o for o in cheat.get("outputs", [])}
+    if legacy:
+        o_impl = sorted(v for v, o in enumerate(outs) if o["script"].startswith("0020") and len(o["script"]) == 68)
+    else:
+        o_impl = sorted(v for v, o in kinds.items() if o.get("cheater_paying"))
     if o_impl != o_mon:
-        fails.append({"why": "the monitor's record of commitment %d (outputs %s) does not describe the transaction (script-hash outputs %s)" % (mon["number"], o_mon, o_impl)})
-    second_stage = []
+        fails.append({"why": "the monitor's record of commitment %d (outputs %s) does not describe the transaction (cheater-paying outputs %s)" % (mon["number"], o_mon, o_impl)})
+    spendable = {s_["outpoint"]: s_ for s_ in rec.get("spendable", [])}
+    second_stage = []     # (S txid, input index, commitment vout)
+    burn = False
     for v in o_impl:
         op = "%s:%d" % (ctxid, v)
-        s = spent_by.get(op)
-        if s is None:
+        s_ = spent_by.get(op)
+        if s_ is None:
             fails.append({"why": "output %d (%d sat) of the revoked commitment was never spent: the cheater keeps it" % (v, outs[v]["value"]), "outpoint": op})
-        elif s in a_htlc:
-            op2 = "%s:0" % s
-            second_stage.append((s, v))
+        elif s_ in a_htlc:
+            st = a_htlc[s_]
+            idx = [i for i, inp in enumerate(st["inputs"]) if inp["prev"] == op][0]
+            op2 = "%s:%d" % (s_, idx)
+            second_stage.append((s_, idx, v))
             s2 = spent_by.get(op2)
             if s2 is None or s2 not in btx:
-                fails.append({"why": "the cheater's HTLC transaction %s (spending output %d) confirmed and its output was not punished" % (s, v), "outpoint": op2})
-        elif s not in btx:
-            fails.append({"why": "output %d of the revoked commitment was spent by an unknown transaction %s" % (v, s)})
-    # re-broadcast discipline: for the same input set, the best feerate offered does not decrease from one
-    # block to the next (within one block the old transaction may be re-announced next to its replacement)
-    per_block = {}
+                fails.append({"why": "the cheater's second-stage transaction %s (input %d of %d spending commitment output %d) confirmed and its output %d was not punished"
+                                     % (s_, idx, len(st["inputs"]), v, idx), "outpoint": op2})
+        elif s_ not in btx:
+            fails.append({"why": "output %d of the revoked commitment was spent by an unknown transaction %s" % (v, s_)})
+    # ---- fee discipline of re-issued claims
+    est_at = dict((h, e) for h, e in (rec.get("conf_target_feerates") or []))
+    per_set = {}
     for h, t in bcast_seq:
         key = tuple(sorted(i["prev"] for i in t["inputs"]))
-        d = per_block.setdefault(key, {})
-        d[h] = max(d.get(h, 0), t["feerate"])
+        made = t.get("locktime", h) if t.get("locktime", 0) < 500000000 else h
+        per_set.setdefault(key, {})[t["txid"]] = (made, t)
     min_delta = None
-    for key, d in per_block.items():
-        hs = sorted(d)
-        for a, b in zip(hs, hs[1:]):
-            delta = d[b] - d[a]
+    n_bumps = 0
+    max_ratio = 1.0
+    for key, d in per_set.items():
+        seq = sorted(d.values(), key=lambda x: (x[0], x[1]["feerate"]))
+        amt = sum(i["value"] for i in seq[0][1]["inputs"])
+        for (h1, t1), (h2, t2) in zip(seq, seq[1:]):
+            p, r = t1["feerate"], t2["feerate"]
+            tol = 3 + r // 50
+            delta = r - p
             min_delta = delta if min_delta is None else min(min_delta, delta)
-            if delta < -3:
-                fails.append({"why": "a claim was re-broadcast with a lower feerate (%d sat/kw at height %d -> %d at height %d)" % (d[a], a, d[b], b), "inputs": list(key)})
+            if delta < -tol:
+                fails.append({"why": "a claim was re-issued with a lower feerate (%d sat/kw at height %d -> %d at height %d)" % (p, h1, r, h2), "inputs": list(key)})
+            if r > p + tol:
+                n_bumps += 1
+                ests = [est_at[x] for x in (h2, h2 + 1) if x in est_at]
+                if ests:
+                    est = min(ests)
+                    afford = (amt // 2) * 1000 // max(1, t2["weight"])
+                    want = min(est, afford)
+                    if want > p and r < want - (3 + want // 50):
+                        fails.append({"why": "a re-issued justice claim does not follow the fee estimate: previous %d sat/kw, estimate for its confirmation target %d, affordable %d, new feerate only %d (height %d)"
+                                             % (p, est, afford, r, h2), "inputs": list(key)})
+            if t2["fee"] * 2 > amt and t2["feerate"] > 20 * max(253, est_at.get(h2, 253)):
+                burn = True
+        if seq[0][1]["feerate"] > 0:
+            max_ratio = max(max_ratio, seq[-1][1]["feerate"] / seq[0][1]["feerate"])
+    fv = rec.get("fee_violations") or {}
+    if (fv.get("not_monotone") or fv.get("below_estimate")) and not any("feerate" in f["why"] or "fee estimate" in f["why"] for f in fails):
+        fails.append({"why": "the harness' own fee check reports violations the judge did not reproduce: %s" % json.dumps(fv)[:300]})
     stats["rebroadcast_min_feerate_delta"] = min_delta
-    # the end: nothing left claimable, everything recovered is reported spendable, value conserved
+    stats["bumps"] = n_bumps
+    stats["max_feerate_ratio"] = round(max_ratio, 1)
+    # the end: nothing left claimable, everything recovered is reported spendable
     if rec.get("final_balances"):
         fails.append({"why": "claimable balances do not drain: %s" % rec["final_balances"][:3]})
-    spendable = {s["outpoint"]: s for s in rec.get("spendable", [])}
     recovered = 0
     fees = 0
     for txid in mined:
@@ -251,24 +300,38 @@ def analyse(rec):
                     fails.append({"why": "the output of the victim's confirmed justice transaction %s is never reported as a SpendableOutput" % op})
                 else:
                     recovered += o["value"]
-        elif txid in a_htlc:
+        elif txid in a_htlc and legacy:
             t = a_htlc[txid]
             fees += t["inputs"][0]["value"] - sum(o["value"] for o in t["outputs"])
-    to_remote = [(v, o) for v, o in enumerate(outs) if v not in o_impl]
     direct = 0
-    for v, o in to_remote:
+    for v, o in enumerate(outs):
+        if v in o_impl:
+            continue
         op = "%s:%d" % (ctxid, v)
+        k = kinds.get(v, {}).get("kind", "p2wpkh" if legacy else "?")
         if op in spendable:
             direct += o["value"]
-        else:
+        elif k not in ("anchor", "p2a"):
             fails.append({"why": "the victim's own output %d of the revoked commitment is never reported as a SpendableOutput" % v})
     total = sum(o["value"] for o in outs)
-    if not fails and recovered + direct + fees != total:
+    if legacy and not fails and recovered + direct + fees != total:
         fails.append({"why": "value is not conserved: outputs of the revoked commitment %d sat, recovered %d + direct %d + fees %d" % (total, recovered, direct, fees)})
+    if burn:
+        # known finding: with the estimate flat, ForceBump adds 25 % per timer tick without looking at the estimate;
+        # a long-unconfirmed claim ends up paying most of its value in fees and can then no longer be re-issued
+        # (only when every second-stage output WAS punished and delivery held the claims back for a long time:
+        #  an unseen second-stage transaction also leaves a stale claim bumping forever, and that is not this finding)
+        if not any("not punished" in f["why"] for f in fails) and (rec.get("fee_delay") or 0) >= 60:
+            for f in fails:
+                if "never spent" in f["why"] or "do not drain" in f["why"]:
+                    f["key_override"] = KNOWN_BURN
+    s_same = [t for t in (rec.get("S_txs") or []) if t.get("same_block_as_commitment") and t["txid"] in mined]
     stats.update({"age": cheat.get("current_number", 0) and (cheat["number"] - cheat["current_number"]), "n_htlc_outputs": len(mon["htlcs"]),
                   "offered": sum(1 for h in mon["htlcs"] if h["offered"]), "received": sum(1 for h in mon["htlcs"] if not h["offered"]),
                   "second_stage": len(second_stage), "justice_txs": sum(1 for t in mined if t in btx), "style": rec.get("style"), "reloads": rec.get("reloads", 0),
-                  "recovered_sat": recovered + direct, "fees_sat": fees})
+                  "recovered_sat": recovered + direct, "fees_sat": fees, "chan_type": rec.get("chan_type", "legacy"),
+                  "same_block": ("%s/%s" % (rec.get("chan_type"), "+".join(sorted(t.get("fee_in_pos", "H") for t in s_same)))) if s_same else None,
+                  "trajectory": "%s/D%s" % (rec.get("fee_trajectory"), rec.get("fee_delay")) if rec.get("fee_trajectory") else None})
     # ---- data for the model
     cs = sorted(rec["mon_commitments"], key=lambda m: -m["number"])
     if [m["number"] for m in cs] != [FIRSTN - j for j in range(len(cs))]:
@@ -278,19 +341,33 @@ def analyse(rec):
     for m in cs:
         hs = "; ".join("mkHtlc %s %d %s None" % ("T" if h["offered"] else "F", h["amount_msat"], ("(Some %d)" % h["vout"]) if h.get("vout") is not None else "None") for h in m["htlcs"])
         cc.append("mkCC %d %d [%s]" % (m["number"], it(m["txid"]), hs))
-    kinds = ["mkOut %s %d" % (("(ORevokeable %d)" % mon["number"]) if v == mon.get("revokeable_vout") else "OOtherScript", o["value"]) for v, o in enumerate(outs)]
+    okinds = ["mkOut %s %d" % (("(ORevokeable %d)" % mon["number"]) if v == mon.get("revokeable_vout") else "OOtherScript", o["value"]) for v, o in enumerate(outs)]
     n_rounds = len(cs) - 1
-    expr = "run_case [%s] %d%%nat %d %d (mkCtx %d %d [%s]) [%s]" % (
-        "; ".join(cc), n_rounds, mon["number"], it(ctxid), it(ctxid), mon["number"], "; ".join(kinds),
-        "; ".join("(%d, %d)" % (it(h), v) for h, v in second_stage))
+    fund = rec["funding"]
+
+    def stx_of(t):
+        ins = []
+        for inp in t["inputs"]:
+            ptx, pv = inp["prev"].rsplit(":", 1)
+            ins.append("(%d, %s, %d)" % (it(ptx), pv, inp.get("wit", 0)))
+        return "mkStx %d [%s] %d" % (it(t["txid"]), "; ".join(ins), len(t["outputs"]))
+    # the cheater's transactions that confirmed, in chain order; those in the commitment's block go through process_block
+    order = [x for x in mined if x in a_htlc and any(i["prev"].startswith(ctxid) for i in a_htlc[x]["inputs"])]
+    same_ids = set(t["txid"] for t in s_same)
+    same = [a_htlc[x] for x in order if x in same_ids]
+    later = [a_htlc[x] for x in order if x not in same_ids]
+    cstx = "mkStx %d [(%d, %d, 4)] %d" % (it(ctxid), it(fund["txid"]), fund["vout"], len(outs))
+    expr = "run_case2 [%s] %d%%nat %d %d (%d, %d) (mkCtx %d %d [%s]) (%s) [%s] [%s]" % (
+        "; ".join(cc), n_rounds, mon["number"], it(ctxid), it(fund["txid"]), fund["vout"], it(ctxid), mon["number"], "; ".join(okinds),
+        cstx, "; ".join(stx_of(t) for t in same), "; ".join(stx_of(t) for t in later))
     b_first = set()
     for t in btx.values():
         for i in t["inputs"]:
-            p, v = i["prev"].rsplit(":", 1)
-            if p == ctxid or p in a_htlc:
-                b_first.add((it(p), int(v)))
-    case = {"expr": expr, "b_spent": sorted(b_first), "o": [(it(ctxid), v) for v in o_impl], "second": [(it(h), 0) for h, _ in second_stage],
-            "revoked": mon["number"] > cheat.get("current_number", -1)}
+            pt, v = i["prev"].rsplit(":", 1)
+            if pt == ctxid or pt in a_htlc:
+                b_first.add((it(pt), int(v)))
+    case = {"expr": expr, "b_spent": sorted(b_first), "o": [(it(ctxid), v) for v in o_impl],
+            "second": [(it(h), i) for h, i, _ in second_stage]}
     return fails, case, stats
 
 
@@ -327,14 +404,17 @@ def run(ctx):
     proved = ctx.prove("C06") and gen_err is None
     ctx.trusted_base += [
         "Coq 8.16.1 kernel + vm_compute",
-        "Model/Justice.v: hand transliteration of provide_latest_counterparty_commitment_tx / provide_secret / check_spend_counterparty_transaction (revoked branch) / check_spend_counterparty_htlc; claim tracking abstracted to the set of outpoints",
+        "Model/Justice.v: hand transliteration of provide_latest_counterparty_commitment_tx / provide_secret / check_spend_counterparty_transaction (revoked branch) / check_spend_counterparty_htlc / filter_block + spends_watched_output (the latter two also compared with the implementation on generated blocks); claim tracking abstracted to the set of outpoints",
+        "Gen/Package.v: rs2v translation of feerate_bump / compute_fee_from_spent_amounts, regenerated from package.rs on every run (tools/rs2v)",
         "Model/Shachain.v and its theorems (C05)",
-        "runtime validation only: script/consensus validity (bitcoinconsensus), signatures, weights, fee adequacy, package aggregation and bump timers of OnchainTxHandler",
-        "LDK functional_test_utils, harness crate (h_justice)",
+        "runtime validation only: script/consensus validity (bitcoinconsensus), signatures, weights, the fee estimator and mempool acceptance (fee adequacy is proved relative to the estimate given to feerate_bump and judged at run time on scripted estimator trajectories), package aggregation/splitting, the height timer (a premise of C06_bumped_until_buried; C07)",
+        "LDK functional_test_utils, harness crate (h_justice, h_filterblock), hook ChannelMonitor::verif_filter_block (calls filter_block unchanged)",
     ]
     ctx.assumptions += ["commitment transaction ids are distinct (the Rust asserts it outside fuzzing)",
                         "a revokeable script matches exactly the outputs built with the same per-commitment point",
-                        "non-anchor channels; watchtower copies and splice scopes not modelled"]
+                        "cheater second-stage transactions do not spend one another's outputs (second-stage theorems)",
+                        "bumps stay affordable and the height timer stays within LOW_FREQUENCY_BUMP_INTERVAL (C06_bumped_until_buried; see known finding C06-F1 for what happens otherwise)",
+                        "watchtower copies and splice scopes not modelled; external funding of anchor/zero-fee-commitment bumps exercised at run time only"]
     broken = []
     if not proved:
         broken.append({"obligation": "Coq proof of Props/C06.v", "detail": getattr(ctx, "proof_failure", {})})
@@ -342,7 +422,7 @@ def run(ctx):
     if fres and fres["disagreements"]:
         broken.append({"correspondence": "h_filterblock vs Model/Justice.v filter_block", "n": len(fres["disagreements"]), "first_disagreements": fres["disagreements"][:3]})
     quick = ctx.tier == "quick"
-    n_scen = 96 if quick else 2400
+    n_scen = 160 if quick else 2400
     batches = 8 if quick else 16
     per = (n_scen + batches - 1) // batches
     seed = ctx.rng.fork("justice").next() & ((1 << 60) - 1)
@@ -370,7 +450,7 @@ def run(ctx):
     ctx.timed("harness_run_s", time.time() - t0)
     judge_fails = []
     cases = []
-    hist = {"age": {}, "style": {}, "second_stage": {}, "htlc_outputs": {}, "justice_txs": {}}
+    hist = {"age": {}, "style": {}, "second_stage": {}, "htlc_outputs": {}, "justice_txs": {}, "chan_type": {}, "same_block": {}, "trajectory": {}, "bumps": {}}
     tot_recovered = tot_fees = 0
     both_dirs = 0
     min_delta = None
@@ -387,12 +467,13 @@ def run(ctx):
             continue
         for f in fails:
             f["replay"] = rp
-            f["key"] = f["why"].split(":")[0][:60]
+            f["key"] = f.pop("key_override", None) or f["why"].split(":")[0][:60]
             judge_fails.append(f)
         if case:
             case["replay"] = rp
             cases.append(case)
-        for k, key in (("age", "age"), ("style", "style"), ("second_stage", "second_stage"), ("htlc_outputs", "n_htlc_outputs"), ("justice_txs", "justice_txs")):
+        for k, key in (("age", "age"), ("style", "style"), ("second_stage", "second_stage"), ("htlc_outputs", "n_htlc_outputs"), ("justice_txs", "justice_txs"),
+                       ("chan_type", "chan_type"), ("same_block", "same_block"), ("trajectory", "trajectory"), ("bumps", "bumps")):
             v = st.get(key)
             hist[k][str(v)] = hist[k].get(str(v), 0) + 1
         tot_recovered += st.get("recovered_sat", 0)
@@ -427,7 +508,9 @@ def run(ctx):
         broken.append({"correspondence": "h_justice vs Model/Justice.v", "n": len(dis), "first_disagreements": dis[:3]})
     ctx.coverage.update({
         "scenarios": len(recs), "model_cases": len(cases), "age_of_cheated_state_histogram": hist["age"], "connect_style_histogram": hist["style"],
-        "second_stage_txs_histogram": hist["second_stage"], "htlc_outputs_on_cheated_commitment_histogram": hist["htlc_outputs"], "justice_txs_histogram": hist["justice_txs"],
+        "second_stage_txs_histogram": hist["second_stage"], "channel_type_histogram": hist["chan_type"],
+        "same_block_second_stage_histogram(chan_type/fee-input layouts)": hist["same_block"], "fee_trajectory_histogram": hist["trajectory"],
+        "fee_bumps_per_scenario_histogram": hist["bumps"], "htlc_outputs_on_cheated_commitment_histogram": hist["htlc_outputs"], "justice_txs_histogram": hist["justice_txs"],
         "cheated_commitments_with_htlcs_in_both_directions": both_dirs, "recovered_sat_total": tot_recovered, "fees_sat_total": tot_fees,
         "rebroadcast_min_feerate_delta": min_delta,
         "evaluations": len(recs), "distinct_nontrivial": len(set(c["expr"] for c in cases)),
@@ -445,7 +528,8 @@ def run(ctx):
     for f in judge_fails[:3]:
         found = True
         ctx.violation("C06 fails on the implementation: " + f["why"], {"broken": broken, "failing_input": f,
-                      "replay_cmd": "%s replay '%s' | grep '^R '" % (ctx.bin_path("h_justice"), json.dumps(f.get("replay", {})))}, True, key="justice:" + f.get("key", ""))
+                      "replay_cmd": "%s replay '%s' | grep '^R '" % (ctx.bin_path("h_justice"), json.dumps(f.get("replay", {})))}, True,
+                      key=(f["key"] if f.get("key") == KNOWN_BURN else "justice:" + f.get("key", "")))
     if broken and not found:
         ctx.violation("C06 no longer shown: %s broken" % ("proof" if not proved else "correspondence"),
                       {"broken": broken, "search": "judge over %d real-node cheat scenarios found no failing input" % len(recs)}, False)
